@@ -153,6 +153,10 @@ def mrq_state(rng, d=3):
                               encoder_zsa_dim=5, encoder_hidden_nodes=[6],
                               policy_learning_rate=1e-2, q_learning_rate=1e-2,
                               encoder_learning_rate=1e-2,
+                              # documented option: activation after the final
+                              # layer norm of the state encoder
+                              encoder_activation_in_last_layer=bool(
+                                  rng.integers(2)),
                               seed=int(rng.integers(1 << 20)))
     return st, space
 
